@@ -12,16 +12,27 @@ use vmodel::malformed;
 use vmodel::spec::EnumSpec;
 
 fn build_vinproc(env: &Env) -> Result<std::path::PathBuf, String> {
+    // the harness embeds the macro sources of one tree: a tree other than /repo (a scratch worktree with a seeded
+    // change) gets a build directory of its own, so that concurrent checks of different trees cannot swap binaries
+    let mut target = env.verif.join("engine/target");
+    if env.repo != std::path::Path::new("/repo") {
+        let mut h = 0xcbf29ce484222325u64;
+        for b in env.repo.to_string_lossy().bytes() {
+            h = (h ^ b as u64).wrapping_mul(0x100000001b3);
+        }
+        target = target.join(format!("alt-{:016x}", h));
+    }
     let mut cmd = Command::new("cargo");
     cmd.args(["build", "--offline", "--release", "-q", "-p", "vinproc"])
         .current_dir(env.verif.join("engine"))
         .env("REPO_ROOT", &env.repo)
+        .env("CARGO_TARGET_DIR", &target)
         .env("CARGO_NET_OFFLINE", "true");
     let (code, _o, e) = run_with_timeout(cmd, Duration::from_secs(600));
     if code != Some(0) {
         return Err(format!("in-process harness does not build against this tree (a *_inner entry point or helper module was renamed?):\n{}", e.lines().rev().take(15).collect::<Vec<_>>().into_iter().rev().collect::<Vec<_>>().join("\n")));
     }
-    Ok(env.verif.join("engine/target/release/vinproc"))
+    Ok(target.join("release/vinproc"))
 }
 
 /// For programs whose enum definition no longer compiles: did the derives ACCEPT the definition
